@@ -682,26 +682,48 @@ def c16(rng, tier, repo):
     ndirs = 4 if tier == 'quick' else 5
     shapes = 80 if tier == 'quick' else 1500
     real_stat, real_lstat, real_fstat = os.stat, os.lstat, os.fstat
-    for _ in range(shapes):
+    # layouts every run looks at, whatever the seed: a link deep in the tree to a non-ancestor that has sub-directories, to a
+    # sibling, to an ancestor from the last of several siblings, from the top directory, to the directory itself
+    FIXED = [
+        (['a', 'a/b', 'x', 'x/y', 'x/y/z'], [('a/b/lnk', 'x')]),
+        (['a', 'a/b', 'a/c', 'a/c/d'], [('a/b/lnk', 'a/c')]),
+        (['a', 'a/b', 'a/b/c'], [('a/b/c/up', 'a')]),
+        (['p', 'p/c1', 'p/c2', 'p/c3'], [('p/c1/up', 'p')]),
+        (['p', 'p/c1', 'p/c2', 'p/c3'], [('p/c3/up', 'p')]),
+        (['a', 'a/sub', 'b'], [('lnk', 'a')]),
+        (['a', 'a/b'], [('a/b/self', 'a/b')]),
+        (['a', 'a/b', 'x', 'x/y'], [('a/b/l1', 'x'), ('x/y/l2', 'a/b')]),
+    ]
+    for idx in range(len(FIXED) + shapes):
         with C.Scratch() as root:
             root = os.path.realpath(root)
             dirs = ['']
-            for i in range(ndirs):
-                parent = rng.choice(dirs)
-                d = os.path.join(parent, 'd%d' % i) if parent else 'd%d' % i
-                dirs.append(d)
-                os.makedirs(os.path.join(root, d))
-                with open(os.path.join(root, d, 'f'), 'w') as f:
-                    f.write(d)
-            # one or two directory symlinks
             links = []
-            for k in range(rng.randint(1, 2)):
-                src_dir = rng.choice(dirs)
-                target = rng.choice(dirs)
-                name = os.path.join(src_dir, 'link%d' % k) if src_dir else 'link%d' % k
-                os.symlink(os.path.join(root, target) if target else root, os.path.join(root, name))
-                links.append((name, target))
-            ignore_link = rng.random() < 0.3
+            if idx < len(FIXED):
+                for d in FIXED[idx][0]:
+                    dirs.append(d)
+                    os.makedirs(os.path.join(root, d))
+                    with open(os.path.join(root, d, 'f'), 'w') as f:
+                        f.write(d)
+                for name, target in FIXED[idx][1]:
+                    os.symlink(os.path.join(root, target) if target else root, os.path.join(root, name))
+                    links.append((name, target))
+            else:
+                for i in range(ndirs):
+                    parent = rng.choice(dirs)
+                    d = os.path.join(parent, 'd%d' % i) if parent else 'd%d' % i
+                    dirs.append(d)
+                    os.makedirs(os.path.join(root, d))
+                    with open(os.path.join(root, d, 'f'), 'w') as f:
+                        f.write(d)
+                # one or two directory symlinks
+                for k in range(rng.randint(1, 2)):
+                    src_dir = rng.choice(dirs)
+                    target = rng.choice(dirs)
+                    name = os.path.join(src_dir, 'link%d' % k) if src_dir else 'link%d' % k
+                    os.symlink(os.path.join(root, target) if target else root, os.path.join(root, name))
+                    links.append((name, target))
+            ignore_link = idx >= len(FIXED) and rng.random() < 0.3
             ignored = links[0][0] if ignore_link else None
 
             def is_ancestor(anc, d):
